@@ -1,6 +1,6 @@
 SPECIFICATION Spec
 CONSTANTS
-  Sessions <- S5
+  Sessions <- P5
   Graphs <- Shapes5
   Depths <- D15
   Skips <- Skips5
@@ -18,6 +18,6 @@ INVARIANT G4_NoAbort
 INVARIANT G4_Bound_Inv
 INVARIANT Verdict_Ok
 INVARIANT D_Tracks
+INVARIANT D_Progress
 PROPERTY D_CfgConst
-PROPERTY G4_Terminates
-CHECK_DEADLOCK FALSE
+CHECK_DEADLOCK TRUE
